@@ -443,6 +443,11 @@ def replay(case, acc):
         run_direct(case["direct_library"], acc)
     elif "stack_idx" in case:
         run_stack(case["library"], tuple(case["stack_idx"]), acc, set())
+    elif "leak" in case:
+        # a long-lived instance: the whole sequence of that pool entry is the case
+        idx = next((i for i, (label, _) in enumerate(POOL) if label == case["leak"]), None)
+        if idx is not None:
+            run_shard(("leak", idx), "quick", acc)
     else:
         run_write(case["write_library"], acc)
 
